@@ -144,6 +144,10 @@ pub enum Op {
     /// the difference algorithm (DST gaps and folds) are hit systematically
     /// rather than by luck.
     ZonedSweep { a: u8 },
+    /// One of `N_SPAN_REL` `Span` APIs that take the `Zoned` as their
+    /// relative datetime (`total`, `round`, `compare`, `checked_add`) and
+    /// build temporaries embedding the handle; plus printing the value.
+    ZonedSpanRel { a: u8, which: u8, arg: i16 },
     /// One of `N_TZ_MAKE` APIs that build a `Zoned`/`AmbiguousZoned` from a
     /// `TimeZone` handle (`Zoned::new`, `tz.to_zoned`, `dt.to_zoned`, ...).
     TzMake { src: u8, dst: u8, which: u8, t: u8 },
@@ -176,6 +180,7 @@ impl Op {
             Op::ZonedCompare { .. } => "zoned_compare",
             Op::ZonedPair { .. } => "zoned_pair",
             Op::ZonedSweep { .. } => "zoned_sweep",
+            Op::ZonedSpanRel { .. } => "zoned_span_rel",
             Op::TzMake { .. } => "tz_make",
             Op::AmbOp { .. } => "amb_op",
             Op::Send { .. } => "send",
@@ -196,9 +201,10 @@ pub const N_DATETIMES: u8 = 5;
 pub const N_QUERIES: u8 = 10;
 pub const N_ZONED_MAKE: u8 = 24;
 pub const N_ZONED_MUTATE: u8 = 9;
-pub const N_TZ_MAKE: u8 = 6;
+pub const N_TZ_MAKE: u8 = 10;
 pub const N_AMB_OPS: u8 = 6;
 pub const N_ZONED_PAIR: u8 = 16;
+pub const N_SPAN_REL: u8 = 8;
 
 fn spec(rng: &mut Rng, pool: &[Spec]) -> Spec {
     if !pool.is_empty() && rng.chance(3, 5) {
@@ -263,6 +269,7 @@ pub fn generate(rng: &mut Rng, thorough: bool) -> Case {
                 w_new, 16, 12, 6, 8, 14, w_zoned, w_zoned / 2, w_zoned / 2, w_zoned / 2,
                 w_zoned / 2, w_zoned / 2, w_send, w_send, w_shared, w_crash,
                 w_zoned, w_zoned, w_zoned / 3, w_zoned / 2, w_zoned / 2, w_zoned, w_zoned / 3,
+                w_zoned / 2,
             ]) {
                 0 => {
                     let dst = slot(rng);
@@ -376,7 +383,12 @@ pub fn generate(rng: &mut Rng, thorough: bool) -> Case {
                     b: full(rng, &occ),
                     which: rng.below(N_ZONED_PAIR as u64) as u8,
                 },
-                _ => Op::ZonedSweep { a: full(rng, &occ) },
+                22 => Op::ZonedSweep { a: full(rng, &occ) },
+                _ => Op::ZonedSpanRel {
+                    a: full(rng, &occ),
+                    which: rng.below(N_SPAN_REL as u64) as u8,
+                    arg: rng.range(-400, 400) as i16,
+                },
             };
             let crash = op == Op::Crash;
             ops.push(op);
